@@ -26,6 +26,8 @@ pub enum Event {
     FragmentAcked { sequence_id: u32, fragment_id: u16 },
     /// An acknowledgement group passed validation (known frames, correct nonce parity).
     AckGroupAccepted { base_id: u32, bitfield: u32 },
+    /// An acknowledgement group of a received ack frame is being examined (accepted or not).
+    AckGroupSeen { base_id: u32, bitfield: u32 },
     /// The sender's packet window base moved.
     PacketBaseAdvanced { old: u32, new: u32 },
     /// A stale TimeSensitive packet was discarded from the send queue.
